@@ -11,7 +11,8 @@ census, by `ast`, of every place under `iOpt/` where such state can live —
 * class-level attributes bound to a mutable literal, a comprehension or the result of a call,
 * module-level names bound to a mutable literal or comprehension (the data tables of the `*_generation` modules are
   regenerated and fingerprinted separately),
-* memoising decorators (`functools.lru_cache`, `cache`, …), `global` statements,
+* memoising decorators (`functools.lru_cache`, `cache`, …), `global` statements, stores to class attributes from inside functions,
+  calls that change interpreter-wide state (`np.seterr`, `random.seed`, `warnings.filterwarnings`, `sys.setrecursionlimit`, …),
 * assignments to attributes of a parameters object (`parameters.x = …`, `self.parameters.x = …`).
 
 The obligation below says that the census of the CURRENT sources is covered, with multiplicity and ignoring line numbers, by
